@@ -501,7 +501,21 @@ class OpsMixin:
             r = self.on_unknown_call(self, st, fn, args, kwargs, node)
             if r is not None:
                 return r
+        # A private helper (`_name`, not a dunder) without a contract of its own is executed from its real source: that
+        # is always sound, and it keeps a contract decided when a maintainer extracts a few lines of a function under
+        # contract into a helper (refactoring round, DESIGN 11.7).  Depth-limited against recursive helpers.
+        simple = getattr(fn, "__name__", "")
+        if self.auto_inline_private and simple.startswith("_") and not simple.startswith("__") and self._auto_inline_depth < 4:
+            self._auto_inline_depth += 1
+            try:
+                clo = self.closure_of_function(fn)
+                return self.call_closure(st, clo, args, kwargs, node)
+            finally:
+                self._auto_inline_depth -= 1
         raise Unsupported(f"call of repo function {qn} without contract (not inlined)", node)
+
+    auto_inline_private = True
+    _auto_inline_depth = 0
 
     def closure_of_function(self, fn):
         from .extract import function_ast
